@@ -100,13 +100,56 @@ def with_extra_site(s, site, rng):
     return s[:pos] + extra + s[pos:]
 
 
+def characterize_twins(rng, q, by):
+    """Characterize recipes on the kit part families (and on concrete kit types specialised by a user) for one plasmid and
+    its twin: another letter case (by='case') or another origin (by='rot', the origin placed on / next to the overhangs)"""
+    import importlib
+    out = []
+    loader.load()
+    from moclo.core import AbstractPart
+    for kit in loader.KITS:
+        mod = importlib.import_module("moclo.kits." + kit)
+        fams = [getattr(mod, nm) for nm in sorted(dir(mod))]
+        fams = [c for c in fams if isinstance(c, type) and issubclass(c, AbstractPart) and c.__module__ == mod.__name__
+                and c.signature is NotImplemented and c.__subclasses__()]
+        for base in fams:
+            subs = [c for c in base.__subclasses__() if classes.signature_typed(c)]
+            for _ in range(2 if q else 10):
+                c = rng.choice(subs)
+                G = gen.geometry_of(c.cutter)
+                up, down = sig_instance(c.signature[0], rng), sig_instance(c.signature[1], rng)
+                # (short plasmids: a four-letter overhang then occurs only once in the whole circle)
+                s = G.module(up, gen.rnd(rng.randint(2, 6), rng), down, gen.rnd(rng.randint(0, 5), rng), rng) if classes.role_of(c) == "module" \
+                    else G.vector(down, up, gen.rnd(rng.randint(0, 4), rng), gen.rnd(rng.randint(2, 6), rng), rng)
+                if not s:
+                    continue
+                n = len(s)
+                if by == "case":
+                    tw = {"by": "case", "mask": rng.choice(["1", "01", "".join(rng.choice("01") for _ in range(n)), "0001"])}
+                    seq = gen.rotate(s, rng.randrange(n))
+                else:
+                    hits = [i for i in range(n) if (s + s)[i:i + G.ovh] in (up, down)]
+                    tw = {"by": "rot", "k": (n - rng.choice(hits) - rng.randint(0, G.ovh)) % n if hits and rng.random() < 0.8 else rng.randrange(n)}
+                    seq = s
+                out.append({"fn": "characterize", "base": {"kit": kit, "name": base.__name__}, "seq": seq, "twin": tw})
+    return out
+
+
 def typing_sig(clause, ev, trace):
+    if ev["ev"] == "Characterize":
+        return "%s|%s|%s" % (clause, "kit" if not ev["base"].startswith("UserPart") else "user", ev.get("twin", {}).get("by", "none"))
     c = ev["cls"]
     kind = "generic" if c["generic"] else ("part" if c["sig"] else c["name"])
     return "%s|%s|%s|%s|%s" % (clause, c["role"], kind, ev["twin"]["by"], ev["ev"])
 
 
 def typing_describe(clause, ev, trace):
+    if ev["ev"] == "Characterize":
+        tw = ev.get("twin", {"by": "none"})
+        return "%s: %s.characterize(%s) -> %s among candidates %s%s" % (
+            clause, ev["base"], dna.dec(ev["seq"]), ev["res"], [c["name"] for c in ev["cands"]],
+            "" if tw["by"] == "none" else "; twin by %s -> %s" % (tw["by"], tw["res"]))
+
     def show(r):
         if not r:
             return None
